@@ -205,6 +205,9 @@ def run_case(c: dict, tmp: str) -> List[dict]:
     # export (base 1 only: the writer always produces 1-based files)
     if c["base"] == 1:
         try:
+            # earlier calls are part of the history: an export with explicit (lossy) formats of another object first
+            ttb.export_data(ttb.ktensor([np.ones((2, 1)), np.ones((2, 1))], np.array([2.0])), os.path.join(tmp, "other.tns"),
+                            fmt_data="%d", fmt_weights="%.1e")
             ttb.export_data(obj, p)
             evs.append({"op": "export", "args": {"obj": c["obj"]}, "ret": {"st": "ok", "tokens": tokenize(p)}})
             back = ttb.import_data(p)
